@@ -47,7 +47,7 @@ fn c19_no_panic_any_size() {
     let (w, h): (u16, u16) = (kani::any(), kani::any());
     let mut t = RecTarget::new(w as u32, h as u32);
     assert!(TestImage::<Rgb565>::new().draw(&mut t).is_ok());
-    assert!(!t.overflow && t.pixel_calls == 0, "C19: test image relies only on fill_contiguous / fill_solid and the target's clipping");
+    kani::assert(!t.overflow && t.pixel_calls == 0, "C19: test image relies only on fill_contiguous / fill_solid and the target's clipping");
     kani::cover!(w == 0 && h == 0);
 }
 
@@ -62,31 +62,33 @@ fn c19_structure_and_symmetry_witnesses() {
     assert!(TestImage::<Rgb565>::new().draw(&mut t).is_ok());
     let bbox = Rectangle::new(Point::zero(), Size::new(w as u32, h as u32));
     // call 0 paints every pixel of the target (border stream)
-    assert!(t.n == 27 && t.calls[0].contiguous && t.calls[0].rect == bbox, "C19: the first call must paint the whole target");
+    kani::assert(t.n == 27 && t.calls[0].contiguous && t.calls[0].rect == bbox, "C19: the first call must paint the whole target");
     // everything else stays inside the 5-pixel margin, so the outermost ring (and the next 4) shows only call 0
     let inner = Rectangle::new(Point::new(5, 5), Size::new((w - 10) as u32, (h - 10) as u32));
     let k: usize = kani::any();
     kani::assume(k >= 1 && k < 27);
     let r = t.calls[k].rect;
     if let Some(br) = r.bottom_right() {
-        let fits = inner.contains(r.top_left) && inner.contains(br);
-        // glyph rectangles (9 x 11) may overhang a narrow bar but never the margin on targets >= 32
-        assert!(fits, "C19: a later call paints into the border margin");
+        // solid fills stay inside the 5-pixel margin; glyph rectangles (9 x 11, centred on a bar that may be only 7 wide)
+        // may overhang into the black padding but never reach the outermost ring, which therefore shows only call 0
+        let ring = Rectangle::new(Point::new(1, 1), Size::new((w - 2) as u32, (h - 2) as u32));
+        let fits = if t.calls[k].contiguous { ring.contains(r.top_left) && ring.contains(br) } else { inner.contains(r.top_left) && inner.contains(br) };
+        kani::assert(fits, "C19: a later call paints into the white frame");
     }
     // colour bars: green over the whole inner area, then red on the left third, blue on the right third
-    assert!(!t.calls[1].contiguous && t.calls[1].rect == inner && t.calls[1].colour == Rgb565::GREEN, "C19: green bar");
-    assert!(t.calls[2].contiguous && t.calls[4].contiguous && t.calls[6].contiguous, "C19: glyphs are contiguous fills");
+    kani::assert(!t.calls[1].contiguous && t.calls[1].rect == inner && t.calls[1].colour == Rgb565::GREEN, "C19: green bar");
+    kani::assert(t.calls[2].contiguous && t.calls[4].contiguous && t.calls[6].contiguous, "C19: glyphs are contiguous fills");
     let (red, blue) = (t.calls[3], t.calls[5]);
-    assert!(!red.contiguous && red.colour == Rgb565::RED && !blue.contiguous && blue.colour == Rgb565::BLUE, "C19: red and blue bars");
+    kani::assert(!red.contiguous && red.colour == Rgb565::RED && !blue.contiguous && blue.colour == Rgb565::BLUE, "C19: red and blue bars");
     let third = ((w - 10) / 3) as u32;
-    assert!(red.rect == Rectangle::new(Point::new(5, 5), Size::new(third, (h - 10) as u32)), "C19: red bar is the left third");
-    assert!(blue.rect == Rectangle::new(Point::new(w - 5 - third as i32, 5), Size::new(third, (h - 10) as u32)), "C19: blue bar is the right third");
-    assert!(5 + (third as i32) < w - 5 - third as i32, "C19: a green region remains between red and blue");
+    kani::assert(red.rect == Rectangle::new(Point::new(5, 5), Size::new(third, (h - 10) as u32)), "C19: red bar is the left third");
+    kani::assert(blue.rect == Rectangle::new(Point::new(w - 5 - third as i32, 5), Size::new(third, (h - 10) as u32)), "C19: blue bar is the right third");
+    kani::assert(5 + (third as i32) < w - 5 - third as i32, "C19: a green region remains between red and blue");
     // marker: 20 white rows of decreasing width from the top-left corner of the inner area
     let j: usize = kani::any();
     kani::assume(j < 20);
     let m = t.calls[7 + j];
-    assert!(!m.contiguous && m.colour == Rgb565::WHITE && m.rect == Rectangle::new(Point::new(5, 5 + j as i32), Size::new(20 - j as u32, 1)), "C19: top-left marker");
+    kani::assert(!m.contiguous && m.colour == Rgb565::WHITE && m.rect == Rectangle::new(Point::new(5, 5 + j as i32), Size::new(20 - j as u32, 1)), "C19: top-left marker");
     // ---- witness points: final colour = colour of the last call covering the point (none of them lies in a glyph rectangle)
     let solid = |p: Point| -> Option<Rgb565> {
         match t.last_cover(p) { Some(i) if !t.calls[i].contiguous => Some(t.calls[i].colour), _ => None }
@@ -95,8 +97,7 @@ fn c19_structure_and_symmetry_witnesses() {
     let tr = Point::new(w - 6, 5);              // top right of the inner area: blue
     let bl = Point::new(5, h - 6);              // bottom left: red
     let brp = Point::new(w - 6, h - 6);         // bottom right: blue
-    assert!(solid(tl) == Some(Rgb565::WHITE) && solid(tr) == Some(Rgb565::BLUE) && solid(bl) == Some(Rgb565::RED) && solid(brp) == Some(Rgb565::BLUE),
-            "C19: corner witnesses (marker / red / blue) are not what the diagnosis relies on");
+    kani::assert(solid(tl) == Some(Rgb565::WHITE) && solid(tr) == Some(Rgb565::BLUE) && solid(bl) == Some(Rgb565::RED) && solid(brp) == Some(Rgb565::BLUE), "C19: corner witnesses (marker / red / blue) are not what the diagnosis relies on");
     // mirror left-right: bl <-> brp (red vs blue); rotate 180: bl <-> tr (red vs blue); mirror top-bottom: tl <-> bl (white vs red)
     assert!(Point::new(w - 1 - bl.x, bl.y) == brp && Point::new(w - 1 - bl.x, h - 1 - bl.y) == tr && Point::new(tl.x, h - 1 - tl.y) == bl);
     // on square targets the four transposing symmetries map tl to tr / bl / brp (white vs blue / red / blue); on non-square
@@ -106,4 +107,46 @@ fn c19_structure_and_symmetry_witnesses() {
     }
     kani::cover!(w == h);
     kani::cover!(w == 32 && h == 65535);
+}
+
+/// Target that checks the colour stream of a contiguous fill point by point (small sizes only)
+struct RingTarget { size: Size, ok: bool, painted: u32, calls: u32 }
+impl OriginDimensions for RingTarget { fn size(&self) -> Size { self.size } }
+impl DrawTarget for RingTarget {
+    type Color = Rgb565;
+    type Error = core::convert::Infallible;
+    fn draw_iter<I: IntoIterator<Item = Pixel<Rgb565>>>(&mut self, _pixels: I) -> Result<(), Self::Error> { self.ok = false; Ok(()) }
+    fn fill_contiguous<I: IntoIterator<Item = Rgb565>>(&mut self, area: &Rectangle, colors: I) -> Result<(), Self::Error> {
+        self.calls += 1;
+        let (w, h) = (self.size.width as i32, self.size.height as i32);
+        if *area != Rectangle::new(Point::zero(), self.size) { self.ok = false; }
+        let mut it = colors.into_iter();
+        let mut k: i32 = 0;
+        while k < w * h {
+            let (x, y) = (k % w, k / w);
+            let ring = x == 0 || y == 0 || x == w - 1 || y == h - 1;
+            match it.next() {
+                Some(c) => { if c != (if ring { Rgb565::WHITE } else { Rgb565::BLACK }) { self.ok = false; } self.painted += 1; }
+                None => { self.ok = false; }
+            }
+            k += 1;
+        }
+        Ok(())
+    }
+    fn fill_solid(&mut self, _area: &Rectangle, _color: Rgb565) -> Result<(), Self::Error> { self.ok = false; Ok(()) }
+}
+/// BOUNDED stand-in (targets up to 6 x 6): the border stream paints every pixel, white exactly on the outermost ring
+#[kani::proof]
+#[kani::unwind(38)]
+fn c19_border_ring_bounded_6() { border_ring(6) }
+#[kani::proof]
+#[kani::unwind(18)]
+fn c19_border_ring_bounded_4() { border_ring(4) }
+fn border_ring(maxd: u32) {
+    let (w, h): (u32, u32) = (kani::any(), kani::any());
+    kani::assume(w >= 1 && w <= maxd && h >= 1 && h <= maxd);
+    let mut t = RingTarget { size: Size::new(w, h), ok: true, painted: 0, calls: 0 };
+    assert!(draw_border(&mut t, BORDER_WIDTH).is_ok());
+    kani::assert(t.ok && t.calls == 1 && t.painted == w * h, "C19: the border stream must paint every pixel, white exactly on the outermost ring");
+    kani::cover!(w == maxd && h == maxd - 1);
 }
